@@ -9,9 +9,12 @@ THEOREMS = ['MM.Search.' + n for n in ('evaluatedRaw_eq_filter', 'C13_greedy_in_
 TRUSTED_BASE = SEARCH_TRUST + ['score comparison across the two real searches tolerates last-ulp differences (1e-9 relative)']
 
 
-def run(out, tier, model_ok=True):
+SUPPORTS_DEEPEN = True
+
+
+def run(out, tier, model_ok=True, deepen=False):
   out.rule = 'oracle: on instances without budget/share constraints every greedy design must be a feasible design of the brute-force enumeration and must not score above the exhaustive optimum; exhaustive empty => greedy empty; non-trivial = greedy returned a design'
-  run_search_prop(out, PROP, se.judge_c13, tier, model_ok)
+  run_search_prop(out, PROP, se.judge_c13, tier, model_ok, deepen=deepen)
 
 
 def replay(out, path, model_ok=True):
